@@ -1,5 +1,6 @@
 import Vita.C11.Model
 import Vita.C11.Big
+import Vita.C11.Cache
 import Vita.C11.FloatImpl
 /-!
   Line protocol of the C11 / C12 drivers (executable side of the model).
@@ -130,6 +131,20 @@ def encSumm (s : Summary Nat) : List Int :=
        [1] ++ encIMep b.solution ++ encFit b.fitness ++ [(b.accuracy : Int)]) ++
   [s.elapsed, (s.mutations : Int), (s.crossovers : Int), (s.gen : Int), (s.lastImp : Int)]
 
+
+/-! cache: `bits sl nlive (position d0 d1 fitness)*` -/
+def dCache : D (Cache Nat) := do
+  let bits ← dNat; let sl ← dNat
+  let slots ← dList (do
+    let pos ← dNat; let h ← decHash; let f ← dList dNat
+    pure (pos, (⟨h, f, sl⟩ : Slot Nat)) : D (Nat × Slot Nat))
+  pure ⟨bits, slots.foldl (fun t ps => t.set ps.1 ps.2) (List.replicate (2 ^ bits) ⟨⟨0, 0⟩, [], 0⟩), sl⟩
+def encCacheGo (sl : Nat) : List (Slot Nat) → Nat → List Int
+  | [], _ => []
+  | s :: t, i => (if s.live sl then [(i : Int)] ++ encHash s.hash ++ encFit s.fitness else []) ++ encCacheGo sl t (i + 1)
+def encCache (c : Cache Nat) : List Int :=
+  [(c.bits : Int), (c.sl : Int), ((c.table.filter (Slot.live c.sl)).length : Int)] ++ encCacheGo c.sl c.table 0
+
 /-- symbol table context: `nsym (opcode hasPar arity)*` -/
 def decTab (ctx : List Int) : SymTab :=
   match dEnd (dList (do let op ← dNat; let hp ← dNat; let ar ← dNat; pure (op, (⟨hp != 0, ar⟩ : SymInfo)) : D (Nat × SymInfo)) ctx) with
@@ -150,6 +165,7 @@ def doSave (ty : String) (ints : List Int) : Option Str :=
   | "team" => (dEnd (dList dIMep ints)).map (Team.save fio)
   | "pop" => (dEnd (dList dLayer ints)).map (Pop.save fio)
   | "summ" => (dEnd (dSumm ints)).map (Summary.save fio)
+  | "cache" => (dEnd (dCache ints)).map (Cache.save fio)
   | _ => none
 
 def fin {α} (enc : α → List Int) (r : Option (α × Str)) : String :=
@@ -164,6 +180,9 @@ def doLoad (ty : String) (s : Str) (ctx : List Int := []) : Option String :=
   | "team" => some (fin encTeam (Team.load fio (decTab ctx) s))
   | "pop" => some (fin encPop (Pop.load fio (decTab ctx) s))
   | "summ" => some (fin encSumm (Summary.load fio (decTab ctx) s))
+  | "cache" => match ctx with         -- context: the `bits` of the fresh target cache
+    | [b] => if b < 0 ∨ b > 20 then none else some (fin encCache (Cache.loadInto fio (Cache.fresh b.toNat) s))
+    | _ => none
   | "hash" => some (fin encHash (Hash.load s))
   | "fit" => some (fin encFit (Fitness.load fio s))
   | "iga" => some (fin encIGa (IGa.load s))
